@@ -7,6 +7,13 @@ task/state.rs (Compio.Gen.TaskState). Ghost counters record what the property ta
 (polls, future drops, result takes/drops, deallocations, use after free).
 
 A future is a script: what each successive poll does.
+
+Cross-thread operations are SEQUENTIAL here: a JoinHandle or a kept waker clone is used on another thread
+while the executor thread does nothing (`Remote::schedule`, `Remote::poll` of task/remote.rs run to
+completion), or — `remoteWakeB` — while the executor thread answers the driver waker with one tick. The
+ids pushed by `Remote::schedule` wait in `sync` (`Shared::sync`, capacity `cap`) until `drain_sync`
+(`drainSync`) moves them to the hot queue at the start of a tick or of a `Local::schedule`. The true
+interleavings of ONE task with a remote handle are in Compio/Model/RemoteJoin.lean.
 -/
 import Compio.Gen.TaskState
 
@@ -19,6 +26,7 @@ inductive Outcome where
   | pending            -- returns Pending without waking anybody
   | wakeSelf           -- `cx.waker().wake_by_ref()` then Pending
   | cloneWaker         -- stores a clone of its waker somewhere, then Pending
+  | remoteWake         -- hands a clone of its waker to another thread, which wakes it at once; then Pending
   | ready              -- returns Ready(v)
   | panic              -- panics (caught: the result is the panic payload)
   deriving DecidableEq, Repr
@@ -53,9 +61,19 @@ structure Exec where
   cold : List Nat
   woken : List Nat           -- join wakers woken, in order (ghost)
   alive : Bool
+  sync : List Nat            -- `Shared::sync`: ids pushed by `Remote::schedule`, oldest first
+  pending : Nat              -- `Shared::pending`: reservations of `Remote::schedule` not yet drained
+  cap : Nat                  -- `ExecutorConfig::sync_queue_size`
+  outstanding : Nat          -- protocol budget of the harness: remote scheduling operations admitted since
+                             -- the current / last tick began (an operation is admitted while this is < cap)
+  inflight : Option Nat      -- id reserved by a `Remote::schedule` that found the sync queue full and waits for
+                             -- the executor to drain it (only during the tick inside `remoteWakeB`)
   deriving DecidableEq, Repr
 
-def Exec.init : Exec := ⟨[], [], [], [], true⟩
+/-- `Executor::with_config` with `sync_queue_size = q` (0 is taken as 1: `ArrayQueue::new(0)` panics) -/
+def Exec.new (q : Nat) : Exec := ⟨[], [], [], [], true, [], 0, if q = 0 then 1 else q, 0, none⟩
+
+def Exec.init : Exec := Exec.new 64
 
 def Exec.get? (e : Exec) (id : Nat) : Option TaskSt := e.tasks[id]?
 
@@ -86,11 +104,52 @@ def makeCold (e : Exec) (id : Nat) : Exec :=
 def removeTask (e : Exec) (id : Nat) : Exec :=
   { e with cold := e.cold.erase id, hot := e.hot.erase id }
 
-/-- `Local::schedule` (home thread; no cross-thread wakes pending in this single-threaded model) -/
+/-- `Shared::drain_sync`: fast path on `pending == 0`, otherwise pop everything, `make_hot` each id,
+`pending -= drained` -/
+def drainSync (e : Exec) : Exec :=
+  if e.pending = 0 then e
+  else
+    let e' := e.sync.foldl makeHot { e with sync := [] }
+    if e.sync.length = 0 then e' else { e' with pending := e'.pending - e.sync.length }
+
+/-- `Local::schedule` (home thread): null `shared` ⇒ nothing; else piggyback the pending cross-thread
+wakes, then `make_hot(id)` -/
 def scheduleLocal (e : Exec) (id : Nat) : Exec :=
   match e.get? id with
   | none => e
-  | some t => if t.shared then makeHot e id else e
+  | some t => if t.shared then makeHot (drainSync e) id else e
+
+/-- `Remote::schedule`, first part: `start_scheduling` and the early return on
+scheduled / completed / cancelled / null `shared` (then `finish_scheduling`). Second component: go on to push. -/
+def remoteSchedTask (t : TaskSt) : TaskSt × Bool :=
+  let old := t.word
+  let t1 := { t with word := TaskState.startScheduling old }
+  if TaskState.isScheduled old || TaskState.isCompleted old || TaskState.isCancelled old then
+    ({ t1 with word := TaskState.finishScheduling t1.word }, false)
+  else if !t.shared then ({ t1 with word := TaskState.finishScheduling t1.word }, false)
+  else (t1, true)
+
+/-- `finish_scheduling` at the end of `Remote::schedule` -/
+def finishSched (e : Exec) (id : Nat) : Exec :=
+  match e.get? id with
+  | none => e
+  | some t => e.setTask id { t with word := TaskState.finishScheduling t.word }
+
+/-- `Remote::schedule` run to completion on another thread while the executor thread does nothing:
+reserve (`pending += 1`), push the id (the protocol budget guarantees room), `finish_scheduling` -/
+def remoteSchedule (e : Exec) (id : Nat) : Exec :=
+  match e.get? id with
+  | none => e
+  | some t =>
+    let r := remoteSchedTask t
+    if !r.2 then e.setTask id r.1
+    else
+      { e.setTask id { r.1 with word := TaskState.finishScheduling r.1.word } with
+          pending := e.pending + 1, sync := e.sync ++ [id] }
+
+/-- a remote scheduling operation under the protocol budget: not admitted ⇒ nothing happens -/
+def remoteScheduleGuarded (e : Exec) (id : Nat) : Exec :=
+  if e.outstanding < e.cap then remoteSchedule { e with outstanding := e.outstanding + 1 } id else e
 
 /-- `Task::drop` called by the executor: mark dropped, detach from the executor, drop the future if it
 did not complete, drop the stored join waker -/
@@ -107,6 +166,7 @@ inductive RunKind where
   | dropped      -- cancelled: not polled, `Task::drop`, removed
   | pending      -- polled, Pending
   | wokeSelf     -- polled, woke itself, Pending
+  | remoteWoke   -- polled, had itself woken from another thread, Pending
   | finished     -- polled, Ready: result published, `Task::drop`, removed
   deriving DecidableEq, Repr
 
@@ -128,6 +188,9 @@ def runTask (t : TaskSt) : TaskSt × RunKind × Option Nat :=
     | .cloneWaker :: rest =>
       ({ t with polls := t.polls + 1, badPolls := t.badPolls + bad, script := rest,
                 word := TaskState.inc t.word, wakers := t.wakers + 1 }, .pending, none)
+    | .remoteWake :: rest =>
+      -- the clone handed to the other thread is consumed by `wake()` there: the count is back where it was
+      ({ t with polls := t.polls + 1, badPolls := t.badPolls + bad, script := rest }, .remoteWoke, none)
     | o :: rest =>
       -- Ready (value or caught panic): the future is dropped, the result written, then published
       let st := if o = .panic then Storage.resultPanic else Storage.resultOk
@@ -148,6 +211,7 @@ def runOne (e : Exec) (id : Nat) : Exec × Bool :=
     | (t, .dropped, _) => (removeTask (e.setTask id t) id, false)
     | (t, .pending, _) => (e.setTask id t, true)
     | (t, .wokeSelf, _) => (scheduleLocal (e.setTask id t) id, true)
+    | (t, .remoteWoke, _) => (remoteScheduleGuarded (e.setTask id t) id, true)
     | (t, .finished, w) => ({ removeTask (e.setTask id t) id with woken := e.woken ++ w.toList }, true)
 
 /-- successor of `id` in the hot list (`TaskQueue::next_hot`) -/
@@ -168,10 +232,35 @@ def tickLoop : Nat → Option Nat → Exec → List Nat → Exec × List Nat
     let r := tickStep e id
     tickLoop n succ r.1 (if r.2 then log ++ [id] else log)
 
-/-- `Executor::tick` with `max_interval = n`; returns the ids polled and `has_hot` -/
-def tick (e : Exec) (n : Nat) : Exec × List Nat × Bool :=
-  let r := tickLoop n e.hot.head? e []
+/-- `Executor::tick` with `max_interval = n`: `drain_sync`, the loop, `has_hot`; returns the ids polled -/
+def tickFrom (e : Exec) (n : Nat) : Exec × List Nat × Bool :=
+  let r := tickLoop n (drainSync e).hot.head? (drainSync e) []
   (r.1, r.2, !r.1.hot.isEmpty)
+
+/-- a `tick` line of a program (the protocol budget starts afresh) -/
+def tick (e : Exec) (n : Nat) : Exec × List Nat × Bool := tickFrom { e with outstanding := 0 } n
+
+/-- a waker clone woken on another thread while the executor thread answers the driver waker
+(`ExecutorConfig::waker`) with ONE tick: if the sync queue is full the pusher calls the driver waker and
+retries after the tick has drained the queue; otherwise it pushes and then calls the driver waker. No tick
+when `Remote::schedule` returns early. -/
+def remoteWakeB (e : Exec) (id n : Nat) : Exec × Option (List Nat × Bool) :=
+  match e.get? id with
+  | none => (e, none)
+  | some t =>
+    let r := remoteSchedTask t
+    if !r.2 then (e.setTask id r.1, none)
+    else
+      let e1 : Exec := { e.setTask id r.1 with pending := e.pending + 1 }
+      if e1.sync.length < e1.cap then
+        let t2 := tickFrom { e1 with sync := e1.sync ++ [id], outstanding := 1 } n
+        (finishSched t2.1 id, some t2.2)
+      else
+        let t2 := tickFrom { e1 with outstanding := 1, inflight := some id } n
+        (finishSched { t2.1 with sync := t2.1.sync ++ [id], inflight := none } id, some t2.2)
+
+/-- the join waker `JoinHandle::cancel(self).await` is polled with in the harness (a no-op waker) -/
+def noopWaker : Nat := 999
 
 inductive JoinResult where
   | pending | ok | panicked | cancelled | invalid
@@ -185,6 +274,26 @@ def spawn (e : Exec) (script : List Outcome) : Exec × Nat :=
                       resTaken := 0, resDrops := 0, slotSets := 0, slotDrops := 0, deallocs := 0, uaf := 0,
                       badPolls := 0 }
   ({ e with tasks := e.tasks ++ [t], hot := e.hot ++ [id] }, id)
+
+/-- `Remote::poll` with waker `w`, run to completion on another thread while the executor thread does
+nothing (so the snapshots of `start_setting_waker` / `finish_setting_waker` show what `load` showed) -/
+def remotePollTask (t : TaskSt) (w : Nat) : TaskSt × JoinResult :=
+  let st := TaskState.load t.word
+  if TaskState.hasResult st then
+    let r := if t.storage = .resultPanic then JoinResult.panicked else JoinResult.ok
+    let t := { t with word := TaskState.setHasResultFalse t.word, resTaken := t.resTaken + 1, storage := .empty }
+    (dropRef { t with handle := false }, r)
+  else if TaskState.isCancelled st then
+    (dropRef { t with handle := false }, .cancelled)
+  else if TaskState.isCompleted st then (t, .invalid)   -- would loop for ever; never happens (`remote_poll_never_stuck`)
+  else
+    let old := t.word
+    let t := { t with word := TaskState.startSettingWaker old }
+    if TaskState.hasWaker old && t.slot = some w then
+      ({ t with word := TaskState.finishSettingWakerTrue t.word }, .pending)
+    else
+      let t := if TaskState.hasWaker old then { t with slotDrops := t.slotDrops + 1 } else t
+      ({ t with slot := some w, slotSets := t.slotSets + 1, word := TaskState.finishSettingWakerTrue t.word }, .pending)
 
 /-- `Local::poll` with waker `w` on a task whose handle is live (Ready ⇒ `self.task = None`) -/
 def pollTask (t : TaskSt) (w : Nat) : TaskSt × JoinResult :=
@@ -260,22 +369,45 @@ def wakerDrop (e : Exec) (id : Nat) : Exec × Bool :=
     if t.wakers = 0 then (e, false)
     else (e.setTask id (dropRef { t with wakers := t.wakers - 1 }), true)
 
+/-- `JoinHandle::poll` on another thread -/
+def remoteHandlePoll (e : Exec) (id w : Nat) : Exec × JoinResult :=
+  match e.get? id with
+  | none => (e, .invalid)
+  | some t =>
+    if !t.handle then (e, .invalid) else
+    let r := remotePollTask t w
+    (e.setTask id r.1, r.2)
+
+/-- `impl Drop for JoinHandle` on another thread: `task.cancel(true)` = `Remote::schedule`, `set_cancelled`,
+drop the result if there is one; then the handle's reference goes away -/
+def remoteHandleDrop (e : Exec) (id : Nat) : Exec :=
+  let e1 := remoteSchedule e id
+  match e1.get? id with
+  | none => e1
+  | some t => e1.setTask id (dropRef { cancelWord t true with handle := false })
+
+/-- `JoinHandle::cancel(self).await` polled once on another thread: `task.cancel(false)`, then `Remote::poll` -/
+def remoteHandleCancel (e : Exec) (id : Nat) : Exec × JoinResult :=
+  let e1 := remoteSchedule e id
+  match e1.get? id with
+  | none => (e1, .invalid)
+  | some t =>
+    let r := remotePollTask (cancelWord t false) noopWaker
+    (e1.setTask id r.1, r.2)
+
 /-- what `Executor::clear` does to one task of the map -/
 def clearTask (e : Exec) (id : Nat) : Exec :=
   match e.get? id with
   | none => e
   | some t => e.setTask id (dropRef (taskDropByExecutor t))
 
-/-- `Executor::clear` / `Drop`: every task still in the map is dropped by the executor -/
+/-- `Executor::clear` / `Drop`: the sync queue is emptied, every task still in the map is dropped by the executor -/
 def clearAll (e : Exec) : Exec :=
-  { (e.hot ++ e.cold).foldl clearTask e with hot := [], cold := [] }
+  { (e.hot ++ e.cold).foldl clearTask e with hot := [], cold := [], sync := [] }
 
 def execDrop (e : Exec) : Exec := { clearAll e with alive := false }
 
 /-! ## Operations of a program (what the driver and the harness execute) -/
-
-/-- the join waker `JoinHandle::cancel(self).await` is polled with in the harness (a no-op waker) -/
-def noopWaker : Nat := 999
 
 inductive Op where
   | spawn (script : List Outcome)
@@ -287,6 +419,13 @@ inductive Op where
   | wake (id : Nat)
   | wdrop (id : Nat)
   | xdrop
+  -- the same objects used on ANOTHER thread (sequentially: the helper thread is joined before the next operation)
+  | rhpoll (id w : Nat)
+  | rhdrop (id : Nat)
+  | rhcancel (id : Nat)
+  | rwake (id : Nat)
+  | rwakeb (id n : Nat)          -- remote wake while the executor answers the driver waker with one tick (`max_interval = n`)
+  | rwdrop (id : Nat)
   deriving DecidableEq, Repr
 
 inductive Resp where
@@ -296,7 +435,24 @@ inductive Resp where
   | join (r : JoinResult)
   | done (ok : Bool)
   | cancel (r : JoinResult)
+  | full                          -- a remote scheduling operation refused by the protocol budget
+  | wokeB (t : Option (List Nat × Bool))
   deriving DecidableEq, Repr
+
+/-- the handle of task `id` is live -/
+def hasHandle (e : Exec) (id : Nat) : Bool :=
+  match e.get? id with
+  | some t => t.handle
+  | none => false
+
+/-- a waker clone of task `id` is kept -/
+def hasWakerClone (e : Exec) (id : Nat) : Bool :=
+  match e.get? id with
+  | some t => t.wakers != 0
+  | none => false
+
+/-- charge the protocol budget -/
+def chargeBudget (e : Exec) : Exec := { e with outstanding := e.outstanding + 1 }
 
 /-- one operation: new state and what the caller observes -/
 def applyR (e : Exec) : Op → Exec × Resp
@@ -314,10 +470,27 @@ def applyR (e : Exec) : Op → Exec × Resp
   | .wake id => let r := wakeLocal e id; (r.1, .done r.2)
   | .wdrop id => let r := wakerDrop e id; (r.1, .done r.2)
   | .xdrop => if !e.alive then (e, .invalid) else (execDrop e, .done true)
+  | .rhpoll id w => let r := remoteHandlePoll e id w; (r.1, .join r.2)
+  | .rhdrop id =>
+    if !hasHandle e id then (e, .invalid) else
+    if !(e.outstanding < e.cap) then (e, .full) else
+    (remoteHandleDrop (chargeBudget e) id, .done true)
+  | .rhcancel id =>
+    if !hasHandle e id then (e, .invalid) else
+    if !(e.outstanding < e.cap) then (e, .full) else
+    let r := remoteHandleCancel (chargeBudget e) id; (r.1, .cancel r.2)
+  | .rwake id =>
+    if !hasWakerClone e id then (e, .invalid) else
+    if !(e.outstanding < e.cap) then (e, .full) else
+    (remoteSchedule (chargeBudget e) id, .done true)
+  | .rwakeb id n =>
+    if !hasWakerClone e id then (e, .invalid) else
+    let r := remoteWakeB e id n; (r.1, .wokeB r.2)
+  | .rwdrop id => let r := wakerDrop e id; (r.1, .done r.2)
 
 def apply (e : Exec) (op : Op) : Exec := (applyR e op).1
 
-/-- the state after a whole program, from a fresh executor -/
-def run (ops : List Op) : Exec := ops.foldl apply Exec.init
+/-- the state after a whole program, from a fresh executor with `sync_queue_size = q` -/
+def run (q : Nat) (ops : List Op) : Exec := ops.foldl apply (Exec.new q)
 
 end Compio.Executor
